@@ -231,8 +231,8 @@ pub fn run_history(h: &History, style: Style, sched: &[u16], credit: u64, ctx: &
             Ending::Normal | Ending::DropResolver | Ending::Split => ops.extend([PeerOp::Write(key, peer::simple_request_headers()), PeerOp::Fin(key)]),
             Ending::Never => ops.push(PeerOp::Write(key, peer::simple_request_headers())),
             Ending::FinBeforeHeaders => ops.push(PeerOp::Fin(key)),
-            Ending::ResetBeforeHeaders => ops.push(PeerOp::Reset(key, 0x10c)),
-            Ending::ResetAfterHeaders => ops.extend([PeerOp::Write(key, peer::post_request_headers()), PeerOp::Write(key, peer::data_frame(b"partial")), PeerOp::Barrier, PeerOp::Reset(key, 0x10c)]),
+            Ending::ResetBeforeHeaders => ops.push(PeerOp::Reset(key, if k % 2 == 0 { 0x10c } else { 0x100 })),
+            Ending::ResetAfterHeaders => ops.extend([PeerOp::Write(key, peer::post_request_headers()), PeerOp::Write(key, peer::data_frame(b"partial")), PeerOp::Barrier, PeerOp::Reset(key, if k % 2 == 0 { 0x100 } else { 0x10c })]),
             Ending::Malformed => ops.extend([PeerOp::Write(key, malformed.clone()), PeerOp::Fin(key)]),
         }
     }
